@@ -96,7 +96,7 @@ impl Config {
     }
 }
 
-fn clamp(x: u64, min: u64, max: u64) -> u64 {
+pub fn clamp(x: u64, min: u64, max: u64) -> u64 {
     // min <= max is a generator invariant (D6)
     if x < min {
         min
@@ -207,6 +207,9 @@ pub struct Stored {
     pub cleared: bool,
     pub last_ttls: Option<Vec<u32>>,
     pub gets_since_insert: u32,
+    /// M1: response class and structural features of the upstream message this entry was derived
+    /// from (empty for hand-built inserts); only used for counters
+    pub labels: Vec<&'static str>,
 }
 
 impl Stored {
@@ -242,6 +245,10 @@ pub struct Judgement {
     pub at_deadline: bool,
     pub elapsed_s: u64,
     pub classes: Vec<&'static str>,
+    /// labels of the stored entry the get was judged against (M1)
+    pub labels: Vec<&'static str>,
+    /// the key is in the don't-care state (U1–U3 of upstream.rs): nothing was judged
+    pub opaque: bool,
 }
 
 pub struct RefCache {
@@ -251,11 +258,14 @@ pub struct RefCache {
     pub older: Vec<Vec<View>>,
     /// a transient error was the last insert on that key
     pub last_was_transient: Vec<bool>,
+    /// the last thing received for that key was an upstream message whose treatment is a don't-care
+    /// (upstream.rs U1–U3): whatever `get` returns is accepted until the next stored insert / clear
+    pub opaque: Vec<bool>,
 }
 
 impl RefCache {
     pub fn new(cfg: Config, nkeys: usize) -> Self {
-        Self { cfg, slots: vec![None; nkeys], older: vec![vec![]; nkeys], last_was_transient: vec![false; nkeys] }
+        Self { cfg, slots: vec![None; nkeys], older: vec![vec![]; nkeys], last_was_transient: vec![false; nkeys], opaque: vec![false; nkeys] }
     }
 
     /// Build the stored register value for an insert (pure; also used by the threaded checker).
@@ -323,6 +333,7 @@ impl RefCache {
             cleared: false,
             last_ttls: None,
             gets_since_insert: 0,
+            labels: vec![],
         }
     }
 
@@ -337,6 +348,27 @@ impl RefCache {
         }
         self.slots[key] = Some(s);
         self.last_was_transient[key] = false;
+        self.opaque[key] = false;
+    }
+
+    /// M1: the latest stored insert on `key` was derived from an upstream message of this class.
+    pub fn set_labels(&mut self, key: usize, labels: Vec<&'static str>) {
+        if let Some(s) = self.slots[key].as_mut() {
+            s.labels = labels;
+        }
+    }
+
+    /// An upstream message whose treatment is a don't-care was received for `key`.
+    pub fn set_opaque(&mut self, key: usize) {
+        if let Some(old) = self.slots[key].take() {
+            let o = &mut self.older[key];
+            if o.len() >= 64 {
+                o.remove(0);
+            }
+            o.push(old.raw);
+        }
+        self.opaque[key] = true;
+        self.last_was_transient[key] = false;
     }
 
     pub fn insert_transient(&mut self, key: usize) {
@@ -347,12 +379,22 @@ impl RefCache {
         for s in self.slots.iter_mut().flatten() {
             s.cleared = true;
         }
+        for o in self.opaque.iter_mut() {
+            *o = false;
+        }
     }
 
     pub fn judge(&mut self, key: usize, now: u64, obs: &Obs) -> Judgement {
         let mut j = Judgement::default();
         let cfg = self.cfg.clone();
         let transient_last = self.last_was_transient[key];
+        if self.opaque[key] {
+            j.opaque = true;
+            if let Obs::Panic(p) = obs {
+                j.findings.push(Finding { rule: "panic", sig: p.clone(), expected: json!("no panic"), observed: obs.to_json() });
+            }
+            return j;
+        }
         let Some(st) = self.slots[key].as_mut() else {
             // nothing was ever stored for this key
             match obs {
@@ -379,6 +421,7 @@ impl RefCache {
             return j;
         };
         j.nontrivial = true;
+        j.labels = st.labels.clone();
         st.gets_since_insert += 1;
         let elapsed_ns = now.saturating_sub(st.t0); // D7
         let elapsed_s = elapsed_ns / NS_PER_S;
